@@ -6,6 +6,7 @@ import ast
 
 from engine.cfg import CFG, normalise_compare, atoms, int_bound_gt, int_bound_lt
 from engine.model import src, stmt_key, dotted, AnalysisError, walk_no_nested
+from engine import pat
 from engine.util import own_nodes, calls_with_nodes, where
 
 RULES = {
@@ -69,7 +70,10 @@ def run(model, rep, tier):
     # ---------------------------------------------------------------- R-01.2
     vl = model.func("dns.name._validate_labels")
     cfg = CFG(vl.node, implicit_exc=False)
-    for exc, var, least, what in (("LabelTooLong", "ll", 64, "label length"), ("NameTooLong", "total", 256, "encoded length")):
+    ev = pat.Env()
+    pat.has(vl.node, "for __label in labels:\n    __ll = len(__label)\n    __total += __ll + 1\n    ...", ev)
+    LL, TOTAL, LABEL = ev.get("__ll", "?ll"), ev.get("__total", "?total"), ev.get("__label", "?label")
+    for exc, var, least, what in (("LabelTooLong", LL, 64, "label length"), ("NameTooLong", TOTAL, 256, "encoded length")):
         rs = [n for n in cfg.nodes if isinstance(n.ast, ast.Raise) and exc in src(n.ast)]
         found = False
         for t in cfg.nodes:
@@ -90,28 +94,31 @@ def run(model, rep, tier):
             defs.setdefault(n.targets[0].id, []).append(src(n.value))
         if isinstance(n, ast.AugAssign) and isinstance(n.target, ast.Name):
             defs.setdefault(n.target.id, []).append(f"{type(n.op).__name__}= {src(n.value)}")
-    rep.check(defs.get("ll") == ["len(label)"] and defs.get("total") == ["0", "Add= ll + 1"], "R-01.2", vl.qualname, where(vl, vl.node), "ll = len(label); total accumulates len(label) + 1 per label",
-              f"accounting changed: ll={defs.get('ll')} total={defs.get('total')}", stmt="accounting")
+    rep.check(defs.get(LL) == [f"len({LABEL})"] and defs.get(TOTAL) == ["0", f"Add= {LL} + 1"], "R-01.2", vl.qualname, where(vl, vl.node), "ll = len(label); total accumulates len(label) + 1 per label",
+              f"accounting changed: ll={defs.get(LL)} total={defs.get(TOTAL)}", stmt="accounting")
     fl = [n for n in ast.walk(vl.node) if isinstance(n, ast.For)]
     rep.check(len(fl) == 1 and src(fl[0].iter) == "labels", "R-01.2", vl.qualname, where(vl, vl.node), "every label is visited", "not every label is visited", stmt="all-labels")
     t = " ".join(src(vl.node).split())
-    rep.check("if i >= 0 and i != l - 1: raise EmptyLabel" in t, "R-01.2", vl.qualname, where(vl, vl.node), "an empty label is allowed only in last position", "empty-label position check changed", stmt="empty-label")
+    rep.check(pat.has(vl.node, "if __i >= 0 and __i != __l - 1:\n    raise EmptyLabel", ev) and pat.has(vl.node, "__l = len(labels)", ev) and pat.has(vl.node, "if __i < 0 and __label == b'':\n    __i = __j\n__j += 1", ev), "R-01.2", vl.qualname, where(vl, vl.node), "an empty label is allowed only in last position", "empty-label position check changed", stmt="empty-label")
 
     # ---------------------------------------------------------------- R-01.3
     fw = model.func("dns.name.from_wire_parser")
     cfg = CFG(fw.node, implicit_exc=False)
     seeks = [(n, c) for (n, c) in calls_with_nodes(cfg) if src(c.func) == "parser.seek"]
     rep.floor("R-01.3-seeks", len(seeks), 1)
+    BP = "?bound"
     for (n, c) in seeks:
         tgt = src(c.args[0])
         tests = [t for t in cfg.nodes if t.kind == "test" and isinstance(t.ast, ast.If) and len(atoms(normalise_compare(t.ast.test))) == 1 and atoms(normalise_compare(t.ast.test))[0][0] == tgt]
-        good = [t for t in tests if atoms(normalise_compare(t.ast.test))[0] == (tgt, ">=", "biggest_pointer")]
-        weak = [t for t in tests if atoms(normalise_compare(t.ast.test))[0] == (tgt, ">", "biggest_pointer")]
+        good = [t for t in tests if atoms(normalise_compare(t.ast.test))[0][1] == ">=" and atoms(normalise_compare(t.ast.test))[0][2].isidentifier()]
+        weak = [t for t in tests if atoms(normalise_compare(t.ast.test))[0][1] == ">" and atoms(normalise_compare(t.ast.test))[0][2].isidentifier()]
+        if good:
+            BP = atoms(normalise_compare(good[0].ast.test))[0][2]
         if good:
             t0 = good[0]
             okk = cfg.edge_dominated(n.id, {(t0.id, "f")}) and any(isinstance(s, ast.Raise) and "BadPointer" in src(s) for s in t0.ast.body)
             rep.check(okk, "R-01.3", fw.qualname, where(fw, c), "seek only to offsets strictly below biggest_pointer (else BadPointer)", "the pointer test does not dominate the seek or does not raise BadPointer", stmt="pointer-decreases")
-            upd = [m.id for m in cfg.nodes if isinstance(m.ast, ast.Assign) and src(m.ast) == f"biggest_pointer = {tgt}"]
+            upd = [m.id for m in cfg.nodes if isinstance(m.ast, ast.Assign) and src(m.ast) == f"{BP} = {tgt}"]
             # between the test and the next evaluation of the loop head biggest_pointer must take the new value
             heads = [h for h in cfg.nodes if h.kind == "test" and isinstance(h.ast, ast.While)]
             r = cfg.reachable([n.id], blocked=upd)
@@ -121,7 +128,7 @@ def run(model, rep, tier):
             rep.bad("R-01.3", fw.qualname, where(fw, weak[0].ast), f"pointer test is `{tgt} > biggest_pointer`: a pointer to itself is accepted and decoding never terminates", stmt="pointer-decreases")
         else:
             rep.bad("R-01.3", fw.qualname, where(fw, c), f"parser.seek({tgt}) is not guarded by a comparison with biggest_pointer", stmt="pointer-decreases")
-    init = [src(n.value) for n in fw.node.body if isinstance(n, ast.Assign) and src(n.targets[0]) == "biggest_pointer"]
+    init = [src(n.value) for n in fw.node.body if isinstance(n, ast.Assign) and src(n.targets[0]) == BP]
     rep.check(init == ["parser.current"], "R-01.3", fw.qualname, where(fw, fw.node), "biggest_pointer starts at the name's own offset", f"biggest_pointer starts at {init}", stmt="bound-init")
     gb = [(n, c) for (n, c) in calls_with_nodes(cfg) if src(c.func) == "parser.get_bytes"]
     for (n, c) in gb:
@@ -130,19 +137,21 @@ def run(model, rep, tier):
         okk = bool(lt) and cfg.edge_dominated(n.id, {(lt[0].id, "t")}) and int_bound_lt(atoms(normalise_compare(lt[0].ast.test))[0])[1] == 63
         rep.check(okk, "R-01.3", fw.qualname, where(fw, c), "literal labels are at most 63 octets", "a literal label of 64 or more octets is accepted from the wire", stmt="label-lt-64")
     t = " ".join(src(fw.node).split())
-    rep.check("elif count >= 192:" in t and "else: raise BadLabelType" in t, "R-01.3", fw.qualname, where(fw, fw.node), "0b11 = pointer, 0b01/0b10 label types raise BadLabelType", "label-type dispatch changed", stmt="label-types")
-    rep.check("current = (count & 63) * 256 + parser.get_uint8()" in t, "R-01.3", fw.qualname, where(fw, fw.node), "pointer = 14 bits: (count & 0x3F) * 256 + next octet", "pointer offset computation changed", stmt="pointer-value")
+    ew = pat.Env()
+    rep.check(pat.has(fw.node, "if __count < 64:\n    ...\nelif __count >= 192:\n    ...\nelse:\n    raise BadLabelType", ew), "R-01.3", fw.qualname, where(fw, fw.node), "0b11 = pointer, 0b01/0b10 label types raise BadLabelType", "label-type dispatch changed", stmt="label-types")
+    rep.check(pat.has(fw.node, "__cur = (__count & 63) * 256 + parser.get_uint8()", ew), "R-01.3", fw.qualname, where(fw, fw.node), "pointer = 14 bits: (count & 0x3F) * 256 + next octet", "pointer offset computation changed", stmt="pointer-value")
     loops = [h for h in cfg.nodes if h.kind == "test" and isinstance(h.ast, ast.While)]
     if len(loops) == 1:
         head = loops[0]
-        consume = [m.id for m in cfg.nodes if isinstance(m.ast, ast.Assign) and src(m.ast) == "count = parser.get_uint8()"]
+        COUNT = ew.get("__count", "?count")
+        consume = [m.id for m in cfg.nodes if isinstance(m.ast, ast.Assign) and src(m.ast) == f"{COUNT} = parser.get_uint8()"]
         starts = [y for (y, k) in cfg.succ[head.id] if k == "t"]
         r = cfg.reachable(starts, blocked=consume)
-        rep.check(bool(consume) and head.id not in r and atoms(normalise_compare(head.ast.test)) == [("count", "!=", "0")], "R-01.3", fw.qualname, where(fw, head.ast),
+        rep.check(bool(consume) and head.id not in r and atoms(normalise_compare(head.ast.test)) == [(COUNT, "!=", "0")], "R-01.3", fw.qualname, where(fw, head.ast),
                   "every iteration reads the next length octet; the loop ends at the zero octet", "an iteration can repeat without consuming input", stmt="consumes")
     else:
         rep.blind("R-01.3", fw.qualname, where(fw, fw.node), "decode loop not found", stmt="consumes")
-    rep.check("with parser.restore_furthest():" in t and t.rstrip().endswith("return Name(labels)"), "R-01.3", fw.qualname, where(fw, fw.node),
+    rep.check(pat.has(fw.node, "with parser.restore_furthest():") and pat.ends_with(fw.node, "return Name(__labels)"), "R-01.3", fw.qualname, where(fw, fw.node),
               "position restored to the furthest octet read; result goes through the validating constructor", "restore_furthest / validating constructor no longer used", stmt="restore-and-validate")
     sk = model.func("dns.wirebase.Parser.seek")
     c2 = CFG(sk.node, implicit_exc=False)
@@ -164,20 +173,22 @@ def run(model, rep, tier):
         rep.check(okk, "R-01.4", tw.qualname, where(tw, s.ast), "only offsets <= 0x3FFF enter the table",
                   f"offsets up to {hex(got) if got is not None else 'unbounded'} are stored: a 14-bit pointer cannot address them and 0xC000 + pos overflows into the next bits", stmt="offset-bound")
         vd = [n for n in cfg.nodes if isinstance(n.ast, ast.Assign) and src(n.ast) == f"{val} = file.tell()"]
-        wr = [n for (n, c) in calls_with_nodes(cfg) if src(c.func) == "file.write" and "struct.pack('!B', l)" in src(c)]
+        wr = [n for (n, c) in calls_with_nodes(cfg) if src(c.func) == "file.write" and pat.match(pat.parse_expr("file.write(struct.pack('!B', __l))"), c, pat.Env())]
         okk = len(vd) >= 1 and cfg.dominated_by_set(s.id, [v.id for v in vd]) and bool(wr) and all(s.id not in cfg.reachable([w.id], skip_kinds={"loop"}) for w in wr) \
             and all(w.id in cfg.reachable([s.id]) for w in wr)
         rep.check(okk, "R-01.4", tw.qualname, where(tw, s.ast), "the stored offset is file.tell() taken before this suffix's first label is written", "the stored offset is not the position where this suffix starts", stmt="offset-before-write")
         lk = [c for c in ast.walk(tw.node) if isinstance(c, ast.Call) and src(c.func) == "compress.get"]
         kd = [src(n.value) for n in ast.walk(tw.node) if isinstance(n, ast.Assign) and src(n.targets[0]) == key]
-        rep.check(len(lk) == 1 and src(lk[0].args[0]) == key and kd == ["Name(labels[i:])"], "R-01.4", tw.qualname, where(tw, s.ast), "inserted under the same suffix Name(labels[i:]) that is looked up",
+        ek = pat.Env()
+        rep.check(len(lk) == 1 and src(lk[0].args[0]) == key and len(kd) == 1 and pat.has(tw.node, f"{key} = Name(__labels[__i:])\n__i += 1", ek) and pat.has(tw.node, "__i = 0\nfor __label in __labels:", ek), "R-01.4", tw.qualname, where(tw, s.ast), "inserted under the same suffix Name(labels[i:]) that is looked up",
                   "lookup key and insertion key differ", stmt="same-key")
         gt = [t for t in cfg.nodes if t.kind == "test" and (f"len({key})", ">", "1") in atoms(normalise_compare(t.ast.test)) and normalise_compare(t.ast.test)[0] in ("and", "atom")]
         rep.check(bool(gt) and cfg.edge_dominated(s.id, {(g.id, "t") for g in gt}), "R-01.4", tw.qualname, where(tw, s.ast), "the root name is never inserted", "the root can be inserted into the compression table", stmt="no-root")
     t = " ".join(src(tw.node).split())
-    rep.check("value = 49152 + pos" in t and "s = struct.pack('!H', value)" in t and "pos = compress.get(n)" in t, "R-01.4", tw.qualname, where(tw, tw.node), "pointer = 0xC000 + offset read from the table",
+    ep = pat.Env()
+    rep.check(pat.has(tw.node, "__value = 49152 + __pos\n__s = struct.pack('!H', __value)\nfile.write(__s)\nbreak", ep) and pat.has(tw.node, "__pos = compress.get(__n)", ep), "R-01.4", tw.qualname, where(tw, tw.node), "pointer = 0xC000 + offset read from the table",
               "the emitted pointer is not 0xC000 + the stored offset", stmt="pointer-emit")
-    rep.check("file.write(s) break" in t, "R-01.4", tw.qualname, where(tw, tw.node), "a pointer ends the name", "labels are written after a pointer", stmt="pointer-terminates")
+    rep.check(pat.has(tw.node, "file.write(__s)\nbreak", ep), "R-01.4", tw.qualname, where(tw, tw.node), "a pointer ends the name", "labels are written after a pointer", stmt="pointer-terminates")
 
     # ---------------------------------------------------------------- R-01.5 / R-01.6
     esc = _folded_bytes(model, nm, "_escaped")
@@ -190,9 +201,9 @@ def run(model, rep, tier):
         if isinstance(n, ast.If):
             nc = normalise_compare(n.test)
             if nc[0] == "and":
-                lo = [int_bound_gt(a) for a in atoms(nc) if int_bound_gt(a) and int_bound_gt(a)[0] == "c"]
-                hi = [int_bound_lt(a) for a in atoms(nc) if int_bound_lt(a) and int_bound_lt(a)[0] == "c"]
-                if lo and hi:
+                lo = [int_bound_gt(a) for a in atoms(nc) if int_bound_gt(a) and int_bound_gt(a)[0].isidentifier()]
+                hi = [int_bound_lt(a) for a in atoms(nc) if int_bound_lt(a) and int_bound_lt(a)[0].isidentifier()]
+                if lo and hi and lo[0][0] == hi[0][0]:
                     raw_lo, raw_hi = lo[0][1], hi[0][1]
         if isinstance(n, ast.FormattedValue) and n.format_spec is not None:
             fmt_ok.append(src(n.format_spec))
@@ -222,15 +233,18 @@ def run(model, rep, tier):
     for qn in ("dns.name.from_text", "dns.name.from_unicode"):
         f = model.func(qn)
         t = " ".join(src(f.node).split())
-        rep.check("if edigits == 3:" in t, "R-01.5", qn, where(f, f.node), "decimal escapes are read with exactly 3 digits", "the reader no longer consumes exactly 3 digits", stmt="3-digits-read")
-        rep.check("if escaping: raise BadEscape" in t and ("if not byte_.isdigit(): raise BadEscape" in t or "if not c.isdecimal(): raise BadEscape" in t), "R-01.5", qn, where(f, f.node),
+        ee = pat.Env()
+        rep.check(pat.has(f.node, "__ed += 1\nif __ed == 3:", ee), "R-01.5", qn, where(f, f.node), "decimal escapes are read with exactly 3 digits", "the reader no longer consumes exactly 3 digits", stmt="3-digits-read")
+        rep.check(pat.has(f.node, "if __esc:\n    raise BadEscape", ee) and pat.has(f.node, f"__esc = False\n__ed = 0", ee) and (pat.has(f.node, "if not __b.isdigit():\n    raise BadEscape", ee) or pat.has(f.node, "if not __b.isdecimal():\n    raise BadEscape", ee)), "R-01.5", qn, where(f, f.node),
                   "truncated or non-numeric escapes raise BadEscape", "bad escapes are no longer rejected", stmt="bad-escape")
     cfg = CFG(ft.node, implicit_exc=False)
-    packs = [n for n in cfg.nodes if n.ast is not None and n.kind == "stmt" and "struct.pack('!B', total)" in src(n.ast)]
+    et = pat.Env()
+    pat.has(ft.node, "__total *= 10", et)
+    packs = [n for n in cfg.nodes if n.ast is not None and n.kind == "stmt" and pat.has_expr(n.ast, "struct.pack('!B', __total)", et)]
     rep.floor("R-01.6", len(packs), 1)
     for pk in packs:
         ts = [t for t in cfg.nodes if t.kind == "test" and len(atoms(normalise_compare(t.ast.test))) == 1 and int_bound_gt(atoms(normalise_compare(t.ast.test))[0]) and
-              int_bound_gt(atoms(normalise_compare(t.ast.test))[0]) == ("total", 256)]
+              int_bound_gt(atoms(normalise_compare(t.ast.test))[0]) == (et.get("__total"), 256)]
         okk = bool(ts) and cfg.edge_dominated(pk.id, {(ts[0].id, "f")}) and any(isinstance(s, ast.Raise) and "BadEscape" in src(s) for s in ts[0].ast.body)
         rep.check(okk, "R-01.6", ft.qualname, where(ft, pk.ast), "\\DDD is packed into one octet only when <= 255, else BadEscape", "a \\DDD escape above 255 reaches struct.pack('!B', ...) and raises struct.error", stmt="ddd-range")
     rep.assume("IDNA codecs (idna package / encodings.idna) are outside the analysed program")
